@@ -2266,6 +2266,13 @@ static vbi_bool vbi_proxyd_send_sliced( PROXY_CLNT * req, vbi_bool * p_blocked )
       /* filter for services requested by this client */
       max_lines = req->vbi_count[0] + req->vbi_count[1];
       p_msg->body.sliced_ind.timestamp = req->p_sliced->timestamp;
+#ifdef ZVBI_VERIF
+      {  /* schedule perturbation: let the acquisition thread run while a frame is being copied */
+         const char * p_env = getenv("ZVBI_VERIF_SEND_DELAY_US");
+         if (p_env != NULL)
+            usleep(atoi(p_env));
+      }
+#endif
       p_msg->body.sliced_ind.sliced_lines = 0;
       p_msg->body.sliced_ind.raw_lines = 0;
 
